@@ -1,5 +1,5 @@
 import Ztr.Model.Sort
-namespace Ztr.Sort
+namespace Ztr.PySort
 
 variable {α : Type}
 
@@ -69,4 +69,4 @@ theorem isort_perm_eq {le : α → α → Bool}
   · exact isort_pairwise trans total l'
   · exact ((isort_perm le l).trans h).trans (isort_perm le l').symm
 
-end Ztr.Sort
+end Ztr.PySort
